@@ -22,7 +22,7 @@ LEVEL = "exploration"
 RULE = (
     "Hypothesis RuleBasedStateMachine. Each history draws a pool of 3-6 inputs: generated programs (with and without "
     "macros; different programs reuse the same macro / label / coroutine / op names), programs with one injected "
-    "static error (the call raises midway), and SSB routine sets of strata 1-3 (incl. ones that take the SsbScript "
+    "static error (the call raises midway), multi-file macro workspaces (main file and its imported files, each also compiled as a top-level file with ONE compiler object per workspace), routine sets chosen to exercise the decompiler's memo table (nested loops, then switches with empty cases), and SSB routine sets of strata 1-3 (incl. ones that take the SsbScript "
     "fallback). Rules: compile with a fresh compiler; compile the SsbScript text of a routine set with the SsbScript compiler; compile with ONE shared compiler instance; decompile fresh "
     "objects; decompile the SAME op objects again; call convert() twice on the same decompiler; SsbScript-decompile the "
     "same op objects after the ExplorerScript decompiler used them; gc.collect(). Model: the result of every input "
@@ -39,7 +39,7 @@ CASES = {"quick": 160, "thorough": 3000}
 SHARDS = 16
 NO_SHRINK = True  # the state machine run shrinks itself
 
-RULES = ["compile_fresh", "compile_shared", "decompile_fresh", "decompile_same_objects", "convert_twice", "ssbs_same_objects", "compile_ssbscript", "gc"]
+RULES = ["compile_fresh", "compile_shared", "decompile_fresh", "decompile_same_objects", "convert_twice", "ssbs_same_objects", "compile_ssbscript", "ws_main_fresh", "ws_main_shared", "ws_lib_shared", "gc"]
 
 _MODEL_CACHE: dict[str, dict] = {}
 
@@ -83,7 +83,45 @@ def pool_items():
         return [{"kind": "program", "prog": p}, {"kind": "text", "text": render.render(q).text}]
 
     pair = st.one_of(st.just([]), gen_macro.macro_programs(single_file=True, max_stmts=20).map(macro_pair))
-    return st.tuples(p_item, s_item, e_item, st.lists(st.one_of(p_item, s_item, s_item, e_item), min_size=0, max_size=3), pair).map(lambda t: [t[0], t[1], t[2]] + t[3] + t[4])
+    ws_item = st.one_of(st.just([]), gen_macro.macro_programs(single_file=False, max_stmts=20).filter(lambda c: c.get("files")).map(lambda c: [{"kind": "ws", "case": c}]))
+    memo = st.one_of(st.just([]), memo_table_inputs())
+    return st.tuples(p_item, s_item, e_item, st.lists(st.one_of(p_item, s_item, s_item, e_item), min_size=0, max_size=3), pair, ws_item, memo).map(lambda t: [t[0], t[1], t[2]] + t[3] + t[4] + t[5] + t[6])
+
+
+@st.composite
+def memo_table_inputs(draw):
+    """Routine sets that exercise the decompiler's memo table of common-join searches: nested loops (their exits do not
+    meet at once, the search stores its results) followed by switches with empty cases and ifs (the search is
+    read). Compiled from small programs; several variants so that the edge-index keys vary."""
+    n = [0]
+
+    def op():
+        n[0] += 1
+        return {"k": "op", "name": f"mo_{n[0]}", "args": [], "ctx": None}
+
+    def var():
+        n[0] += 1
+        return {"t": "const", "v": f"$M_{n[0]}"}
+
+    def cond():
+        return {"c": "neg", "not": False, "kw": draw(st.sampled_from(["debug", "edit", "variation"]))}
+
+    items = []
+    for _ in range(draw(st.integers(1, 2))):
+        inner = {"k": draw(st.sampled_from(["while", "forever"])), "not": False, "cond": cond(), "body": [op()] if draw(st.booleans()) else [op(), op()]}
+        if inner["k"] == "forever":
+            inner = {"k": "forever", "body": [op(), {"k": "if", "not": False, "conds": [cond()], "body": [{"k": "ctl", "v": "break_loop"}], "elifs": [], "else": None}]}
+        outer = {"k": "forever", "body": [op() for _ in range(draw(st.integers(0, 2)))] + [inner]}
+        body = [op() for _ in range(draw(st.integers(0, 2)))] + [outer]
+        routines = [{"kind": "def", "id": i, "name": None, "target": None, "alias": False, "body": body} for i in range(draw(st.integers(1, 4)))]
+        items.append({"kind": "ssb", "case": {"stratum": 1, "prog": {"imports": [], "macros": [], "routines": routines}, "gaps": [0]}})
+    for _ in range(draw(st.integers(1, 3))):
+        ncase = draw(st.integers(1, 3))
+        sw = {"k": "switch", "head": draw(st.sampled_from([{"h": "random", "v": {"t": "int", "v": 3}}, {"h": "var", "v": var()}, {"h": "sector"}])),
+              "cases": [{"default": False, "head": {"ch": "val", "v": {"t": "int", "v": j}}, "body": [{"k": "ctl", "v": "break"}] if (j == ncase - 1 or draw(st.booleans())) else []} for j in range(ncase)]}
+        body = [op() for _ in range(draw(st.integers(0, 3)))] + [sw] + [op() for _ in range(draw(st.integers(0, 2)))] + [{"k": "ctl", "v": "end"}]
+        items.append({"kind": "ssb", "case": {"stratum": 1, "prog": {"imports": [], "macros": [], "routines": [{"kind": "def", "id": 0, "name": None, "target": None, "alias": False, "body": body}]}, "gaps": [0]}})
+    return items
 
 
 class HistoryRunner:
@@ -92,6 +130,7 @@ class HistoryRunner:
         self.steps: list[list] = []
         self.shared_compiler = None
         self.objects: dict[int, tuple] = {}
+        self.ws_compilers: dict[int, object] = {}
         self.decompilers: dict[int, object] = {}
         self.last_raised = False
         self.flags = set()
@@ -106,6 +145,32 @@ class HistoryRunner:
         if rule_name == "gc":
             gc.collect()
             return None
+        if rule_name.startswith("ws_"):
+            k = self._idx(i, ("ws",))
+            if k is None:
+                return None
+            item = self.pool[k]
+            ref = fresh_reference(item)
+            shared = None
+            if rule_name != "ws_main_fresh":
+                from explorerscript.ssb_converting.ssb_compiler import ExplorerScriptSsbCompiler
+                from vf import spec_tables as T
+
+                if k not in self.ws_compilers:
+                    ws = results.open_ws(item)
+                    self.ws_compilers[k] = ExplorerScriptSsbCompiler(T.PERF_VAR, ws.lookup_paths)
+                shared = self.ws_compilers[k]
+            if rule_name == "ws_lib_shared":
+                n = len(item["case"]["files"])
+                if n == 0:
+                    return None
+                j = (i // 7) % n
+                got = results.ws_compile(item, j, compiler=shared)
+                self._note(k, "raised" in got)
+                return self._cmp(rule_name, k, ref["libs"][j], got)
+            got = results.ws_compile(item, "main", compiler=shared)
+            self._note(k, "raised" in got)
+            return self._cmp(rule_name, k, ref["main"], got)
         if rule_name in ("compile_fresh", "compile_shared"):
             k = self._idx(i, ("program", "text"))
             if k is None:
@@ -257,6 +322,18 @@ def run_shard(tier, seed, shard, n_cases, known_b):
         def ssbs_same_objects(self, i):
             self._do("ssbs_same_objects", i)
 
+        @rule(i=st.integers(0, 40))
+        def ws_main_fresh(self, i):
+            self._do("ws_main_fresh", i)
+
+        @rule(i=st.integers(0, 40))
+        def ws_main_shared(self, i):
+            self._do("ws_main_shared", i)
+
+        @rule(i=st.integers(0, 40))
+        def ws_lib_shared(self, i):
+            self._do("ws_lib_shared", i)
+
         @rule(i=st.integers(0, 20))
         def compile_ssbscript(self, i):
             self._do("compile_ssbscript", i)
@@ -306,3 +383,10 @@ def shrink_candidates(case):
         if len(case["pool"]) > 1 and not any(True for _ in []):
             pool = case["pool"][:k] + case["pool"][k + 1:]
             yield {"pool": pool, "steps": steps}
+
+
+def extra(ctx):
+    """scratch workspaces of this run (shared with the fresh-interpreter workers) are removed at the end"""
+    import shutil
+
+    shutil.rmtree("/tmp/vf-c11-ws", ignore_errors=True)
